@@ -81,5 +81,10 @@ Over == AllDone \/ \A j \in P : phase[j] = "failed"
 MCNext == (CASE OrderMode = "free" -> FreeNext [] OrderMode = "eager" -> EagerNext [] OTHER -> CanonNext)
           \/ (Over /\ UNCHANGED mcvars)
 MCSpec == MCInit /\ [][MCNext]_mcvars
+\* bounded liveness: with every message delivered eventually (and the phaser running) a ceremony ends: everybody done or
+\* everybody refused -- or, with a faulty input, cannot end (ReshareMC_ctl_live_lost.cfg MUST violate Terminates)
+MCProgress == CASE OrderMode = "free" -> FreeNext [] OrderMode = "eager" -> EagerNext [] OTHER -> CanonNext
+LiveSpec == MCInit /\ [][MCNext]_mcvars /\ WF_mcvars(MCProgress)
+Terminates == <>Over
 MCView == <<par, opoly, phase, cur, dpoly, dealIn, respIn, queue, shDel, seen, took, sk, res, errc, dups>>
 ====
